@@ -25,7 +25,19 @@ func init() {
 func c38seed(tp *simkit.Tape, stmtID uint32) (string, []byte) {
 	id := make([]byte, 4)
 	binary.LittleEndian.PutUint32(id, stmtID)
-	switch tp.Choose(12) {
+	switch tp.Choose(14) {
+	case 12, 13:
+		// statement texts that are fragments: openings of comments, quotes and executable comments with nothing
+		// (or something odd) behind them, as a query or as a text to prepare
+		odd := []string{"--1", "--", "-- ", "--x\nselect 1", "/* c */ --x\nselect 1", "/*", "/*!", "/*!50000", "/* c", "#", "#\n", "# x", "'", "\"", "`", ";", ";;;", "select '",
+			"select \"a", "select `", "(", "((((((((((", "select 1 --", "select 1 /*", "/*!*/", "/**/", "/*!40101 select 1", "-", "\\", "select 1;--", "\x00", " ", "", "\n", "use", "set", "begin;--1", "select 1 union", "insert", "explain", "kill", "?", "select ? ? ?", "select '\\"}
+		txt := odd[tp.Choose(len(odd))]
+		cmd := byte(myproto.ComQuery)
+		kind := "query-fragment"
+		if tp.Chance(1, 4) {
+			cmd, kind = myproto.ComStmtPrepare, "prepare-fragment"
+		}
+		return kind, append([]byte{cmd}, txt...)
 	case 0:
 		return "query", append([]byte{myproto.ComQuery}, "select 1"...)
 	case 1:
